@@ -12,6 +12,7 @@ R05.3 every k is tried: the candidate starts at the constant 1 and its only othe
 R05.4 all pairs: the test is `X.iter().all(|a| X.iter().all(|b| same(a,b) || a.is_disjoint(b)))` over one collection X.
 R05.5 a failed non-terminal fails the grammar: in calculate_k_tuples / calculate_lookahead_dfas the Result of decidable is
       propagated (and_then / `?`), never replaced by a default (unwrap_or .. / ok() / is_ok()).
+R05.6 = all C06 rules re-evaluated (the sets the decision compares come from the per-k caches and fixpoint loops).
 """
 from .. import cfg
 from ..dataflow import operand_term, raw_operand_place, single_def, forward_derived
@@ -230,3 +231,6 @@ def check(ctx):
                               "%s replaces a failed %s by a default (%s): a grammar with an undecidable non-terminal is accepted"
                               % (short(b.path), short(c.path), swallowed), where(b, c.line))
     ctx.require_floor("R05.5", "decision_call_sites", n, 2)
+    # R05.6 = C06's rules (added after seed C05-a): the decision compares FIRST_k . FOLLOW_k sets taken from the per-k caches
+    from . import c06
+    c06.check(ctx)
